@@ -98,6 +98,31 @@ Theorem c06_jws_complete :
     jws_run prim_std e SrcKey alg k true siglen = Ok tt.
 Proof. exact jws_complete. Qed.
 
+(* ---------- one key object, many calls ---------- *)
+(* the verdict of get_op_key is a function of (key parameters, operation) only: after
+   ANY history of operations on the same key object, an operation gets the verdict it
+   gets on a fresh key (the differential run observes second and later calls on one
+   object and compares them with this stateless model) *)
+Theorem c06_gate_stateless :
+  forall k history op,
+    last (run_history k (history ++ [op])) (Ok tt) = op_verdict k op /\
+    (forall op', nth_error (run_history k (history ++ [op])) (length history) = Some (op_verdict k op) /\
+                 run_history k (op' :: history ++ [op]) = op_verdict k op' :: run_history k (history ++ [op])).
+Proof. exact gate_stateless. Qed.
+
+(* a permitted warm-up never opens a gate *)
+Theorem c06_gate_after_history :
+  forall k history op l r,
+    k_ops k = Some (PList l) -> ~ In (PStr (asc op)) l -> find_op op = Some r ->
+    last (run_history k (history ++ [op])) (Ok tt) = Err (EJose UnsupportedKeyOperationError).
+Proof. exact gate_after_history. Qed.
+
+Example c06_history_instance :
+  run_history (ex_key KOct "" 128 true None (Some ["verify"])) ["verify"; "wrapKey"; "verify"; "deriveKey"; "sign"]
+  = [Ok tt; Err (EJose UnsupportedKeyOperationError); Ok tt;
+     Err (EJose UnsupportedKeyOperationError); Err (EJose UnsupportedKeyOperationError)].
+Proof. vm_compute. reflexivity. Qed.
+
 (* ---------- JWE ---------- *)
 (* jwe.encrypt_compact / decrypt_compact / encrypt_json / decrypt_json (flattened,
    general, one recipient), jwt.encode / decode with a JWERegistry; recipient key
@@ -387,6 +412,8 @@ Print Assumptions c06_jws_key_ops_class.
 Print Assumptions c06_jws_public_cannot_sign.
 Print Assumptions c06_jws_curve_class.
 Print Assumptions c06_jws_complete.
+Print Assumptions c06_gate_stateless.
+Print Assumptions c06_gate_after_history.
 Print Assumptions c06_jwe.
 Print Assumptions c06_jwe_preattached.
 Print Assumptions c06_jwe_multi_encrypt.
